@@ -7,6 +7,19 @@ _A_NOTE = ('Trusted: CrossHair 0.0.110 proxy semantics and path pruning, z3 5.1.
            'before a VIOLATION is printed.')
 
 CLAIMS = {
+    'C16': dict(
+        engine='A-crosshair',
+        technique='bounded symbolic execution of the real code (CrossHair + z3); inductive-step history invariants after every prefix',
+        text=('For the C03 operation space (two operations by name/index/slice on catalogue signatures, symbolic '
+              'assigned values) under every suspend_tracking layout (none, first, second, nested both, block that '
+              'raises), and for 3-operation sequences of tag edits / update_callable / materialize_defaults / assign / '
+              'copy_with / tagged assignment / deletion: after every prefix each parameter\'s history ends with its '
+              'current value (or DELETED) and tag set, history is append-only, a changed stored value adds exactly one '
+              'entry and a rejected or suspended edit adds none, sequence ids are strictly increasing in program order '
+              'and unique across two alternately edited configurations, value entries are not attributed to Fiddle\'s '
+              'own modules, the tracking flag is restored after nested and raising blocks, and clearing history '
+              'changes neither == nor the canonical form.'),
+        note=_A_NOTE + ' The thread clause is decided by C19. Tag entries written through the tagging API are attributed to tagging.py by design (pinned by printing_test) and are exempt from the location clause.'),
     'C06': dict(
         engine='A-crosshair',
         technique='bounded symbolic execution of the real code (CrossHair + z3); relational checks over rewrite pairs',
